@@ -53,3 +53,18 @@ Definition chk_C15 (c o : value) : bool :=
       end
   | _ => true
   end.
+
+(* several connections through one handler: each is judged on its own *)
+Fixpoint chk_C15_each (regs : list value) (orc : value) (conns metas obs : list value) : bool :=
+  match conns, metas, obs with
+  | [], _, [] => true
+  | ops :: cs, m :: ms, o :: os => chk_C15 (VL [VL regs; ops; orc; m]) o && chk_C15_each regs orc cs ms os
+  | _, _, _ => false
+  end.
+
+Definition chk_C15m (c o : value) : bool :=
+  match c, o with
+  | VL [VL regs; VL conns; orc; VL metas], VL obs => chk_C15_each regs orc conns metas obs
+  | VL [VL _; VL _; _; VL _], _ => false
+  | _, _ => true
+  end.
